@@ -1,6 +1,14 @@
 """C13 - no request can crash or wedge the tracker."""
 from e2e_common import E2E_REASONS, E2E_RULE, E2E_PART_TAGS
 PROP = {
+    # the receive loop itself (serve(): one goroutine per datagram, pooled buffers): concurrent clients with source addresses
+    # of their own through the real socket; every well-formed request gets exactly one response - the one for ITS request
+    "parts": [{"name": "sock", "driver_prop": "STRESS", "glue": "GE", "chk": "chkE04", "explain": "explainE", "prelude": "From Chihaya Require Import Glue.G06 Glue.G10.",
+               "n": {"quick": 50, "thorough": 600},
+               "reasons": {"1": "panic", "2": "a request through the real socket got no response, or more than one", "4": "error/connect response bytes differ from what THIS request calls for",
+                           "5": "response bytes differ from the BEP 15 encoding of the answer to THIS request", "12": "scrape counts differ",
+                           "13": "the membership left by announces sent through the socket is not the one the datagrams imply"},
+               "gotags": ["verif_sock", "verif_e2e", "shim_udp", "shim_http", "shim_memory", "shim_timecache"]}],
     "glue": "GE", "chk": "chkE13", "explain": "explainE", "prelude": "From Chihaya Require Import Glue.G06 Glue.G10.",
     "gotags": E2E_PART_TAGS,
     "n": {"quick": 60, "thorough": 1500},
